@@ -23,6 +23,8 @@ func runC04(c *core.Ctx) {
 	h.storageCacheCoherence("C04.2b storage-cache")
 	c.Clause("C04.3/5 truncation only from the first conflicting index, never by a leader")
 	h.truncationOnlyAtConflict("C04.3 truncation")
+	// truncate-then-append relies on the segment's write position following a back removal
+	h.layoutAgreement("C04.3b log-layout")
 	c.Clause("C04.4 append requests are built from the sender's own log view")
 	h.requestsFromOwnLog("C04.4 requests-from-own-log")
 	c.Clause("C04.6 requests of a stale term have no effect")
@@ -54,6 +56,10 @@ func runC06(c *core.Ctx) {
 	h.leaderCommitRule("C06.1b leader-commit")
 	c.Clause("C06.2 follower flushes appended entries before the success reply and before advancing its commit index")
 	h.followerFlushBeforeAck("C06.2 follower-flush")
+	// commitLog(n) is only as good as the segmented log's CommitN / sync / walks
+	h.commitBeforeStructureChange("C06.2b log-commit")
+	h.segmentSyncProtocol("C06.2c log-sync-protocol")
+	h.segmentWalks("C06.2d log-segment-walks")
 	c.Clause("C06.3 majority over voters of the latest configuration; voter cache fresh when the configuration changes")
 	h.majorityOverVoters("C06.3a majority")
 	h.voterCacheFreshness("C06.3b voter-cache")
@@ -61,6 +67,7 @@ func runC06(c *core.Ctx) {
 	h.matchIndexOnlyOnSuccess("C06.4 matchIndex")
 	h.storageErrorsSurface("C06.5 storage-errors-surface", storageErrExempt)
 	h.leaderInitEstablishes("C06.3c voter-cache", "leader.numVoters")
+	h.configSetters("C06.3d config-setters")
 }
 
 // storageErrExempt: storage-layer errors that are deliberately not handed on,
